@@ -54,7 +54,7 @@ def guarded(fn, seconds=30):
 
 
 # --------------------------------------------------------------- cooler I/O
-def make_cooler(path, blocks, pixels, symmetric=True, extra=None, bin_weight=None, mode="w"):
+def make_cooler(path, blocks, pixels, symmetric=True, extra=None, bin_weight=None, mode="w", count_dtype=None):
     """blocks: list of chromosome blocks [(cid,start,end)...]; pixels: sorted [(b1,b2,count)];
     extra: optional list of ints (second value column 'w'); bin_weight: optional list of floats
     stored as bin column 'weight'."""
@@ -64,12 +64,14 @@ def make_cooler(path, blocks, pixels, symmetric=True, extra=None, bin_weight=Non
         bins["weight"] = np.asarray(bin_weight, dtype=float)
     d = {"bin1_id": np.array([p[0] for p in pixels], dtype=np.int64),
          "bin2_id": np.array([p[1] for p in pixels], dtype=np.int64),
-         "count": np.array([p[2] for p in pixels], dtype=np.int32)}
+         "count": np.array([p[2] for p in pixels], dtype=np.dtype(count_dtype or "int32"))}
     kw = {}
+    if count_dtype is not None:
+        kw["dtypes"] = {"count": np.dtype(count_dtype)}
     if extra is not None:
         d["w"] = np.array(list(extra), dtype=np.int64)
         kw["columns"] = ["count", "w"]
-        kw["dtypes"] = {"w": np.int64}
+        kw.setdefault("dtypes", {})["w"] = np.int64
     cooler.create_cooler(str(path), bins, pd.DataFrame(d), symmetric_upper=symmetric, mode=mode, **kw)
 
 
